@@ -354,11 +354,30 @@ def r08_advance(repo, sink):
         every = not cfg.reachable(cfg.entry, cfg.exit, avoid=nodes)
         twice = any(cfg.reachable(a, b) for a in nodes for b in nodes)
         forward = all(getattr(s, "_r08_helper", False) or _advances(s) for s in stores)
-        sink.check(every and not twice and forward, "R08", f"advance:{c.name}", up,
-                   ok="clock assigned exactly once on every path of _update (+= step or next data row)",
-                   bad=("a path through _update leaves the clock unchanged" if not every else
-                        "the clock is assigned more than once per update" if twice else
-                        f"clock update is not an advance: {U(stores[0])}"))
+        # (a syntactic reading: it can discharge, it never accuses - a shape it does not know is UNRECOGNISED; a table-driven
+        # component whose clock is decided by the abstract run over a table stand-in - `reader-clock-follows-rows` - is left to that)
+        if not (every and not twice and forward) and _table_clock_decided(repo, c):
+            sink.ok("R08", f"advance:{c.name}", up, "table-driven component: the clock is decided by reader-clock-follows-rows (abstract run over a three-row table)")
+        elif every and not twice and forward:
+            sink.ok("R08", f"advance:{c.name}", up, "clock assigned exactly once on every path of _update (+= step or next data row)")
+        else:
+            sink.unknown("R08", f"advance:{c.name}", up,
+                         ("a path through _update seems to leave the clock unchanged" if not every else
+                          "the clock seems to be assigned more than once per update" if twice else
+                          f"clock update not recognised as an advance: {U(stores[0])}") + " (syntactic fall-back; the body is outside the abstract vocabulary)")
+
+
+def _table_clock_decided(repo, c):
+    """The abstract table run (r08r) reaches a verdict for class c (either way: its own obligation reports a defect)."""
+    if c.name != "CsvReader" and not any(isinstance(n, ast.Attribute) and n.attr == "read_csv" for m in c.methods.values() for n in ast.walk(m.node)):
+        return False
+    from ..report import Sink
+    probe = Sink()
+    try:
+        r08r_reader_finishes(repo, probe)
+    except (AnalysisError, Undecided):
+        return False
+    return any(o.key == "reader-clock-follows-rows" and o.verdict != "UNRECOGNISED" for o in probe.obs)
 
 
 def r08r_reader_finishes(repo, sink):
@@ -426,6 +445,7 @@ def r08r_reader_finishes(repo, sink):
         it.store_attr(me, "status", Sym("enum", "ComponentStatus", "VALIDATED"), None)
         sg = repo.resolve(c, "status", "getter")
         emitted = [t for (_n, _d, t) in it.pushes]
+        clocks = [it.attr(me, "time", None, None)]
         why, k = None, 0
         while k < n_rows + 2:
             if it.run(sg, [], self_obj=me) == Sym("enum", "ComponentStatus", "FINISHED"):
@@ -439,6 +459,7 @@ def r08r_reader_finishes(repo, sink):
                        "again (end time beyond the last row) and the run dies before anything is finalized")
                 break
             emitted += [t for (_n, _d, t) in it.pushes]
+            clocks.append(it.attr(me, "time", None, None))
         else:
             why = f"the reader is still not FINISHED after {k} updates of a {n_rows}-row table"
         if why is None and k != n_rows - 1:
@@ -448,6 +469,25 @@ def r08r_reader_finishes(repo, sink):
         return
     sink.check(why is None, "R08", "reader-finishes-with-last-row", up,
                ok="every row is emitted once and the update that emits the last one leaves the reader FINISHED", bad=why or "")
+    # the clock of a table-driven component: after connect the first row's time, after the k-th update the time of row k
+    def rows_in(v, acc):
+        if isinstance(v, Sym):
+            if v.op in ("cell", "row"):
+                acc.add(v.args[0])
+            for a in v.args:
+                rows_in(a, acc)
+        return acc
+
+    why_c = None
+    for k2, t in enumerate(clocks):
+        got = rows_in(t, set())
+        if got != {k2}:
+            why_c = why_c or (f"after {'connect' if k2 == 0 else f'update {k2}'} the public clock is {t!r}: "
+                              + (f"the time of row(s) {sorted(got)}" if got else "not a row's time") + f", expected the time of row {k2}"
+                              + (" (the clock does not move: run() cannot end)" if k2 and t == clocks[k2 - 1] else ""))
+    sink.check(why_c is None, "R08", "reader-clock-follows-rows", up,
+               ok="the clock is the time of the row emitted last: the first row after connect, row k after the k-th update", bad=why_c or "")
+    repo.__dict__.setdefault("_r08_table_clock", {})[c.name] = why_c is None
 
 
 def _advances(s):
